@@ -2,12 +2,9 @@
    effect and documented failures (docs/src/user_docs/assembly/field_operations.md,
    stack_manipulation.md), for every stack of canonical elements. *)
 From Coq Require Import ZArith List Bool Arith Lia String.
-From MV Require Import Base.Field Core.Op Core.Rpo Vm.Pure Vm.PureProps Gen.AsmGen Asm.Instr Asm.StackInstr.
+From MV Require Import Base.Field Core.Op Core.Rpo Vm.Pure Vm.PureProps Gen.AsmGen Asm.Instr Asm.SpecDefs Asm.StackInstr.
 Import ListNotations.
 Open Scope Z_scope.
-
-Definition bin_or (v : Z) (k : option perr) : option perr :=
-  if negb (is_bin v) then Some (PNotBinary v) else k.
 
 Ltac run_view2 :=
   cbv [vpure_ops pure_ops_gen vpure_op pure_op_gen vreplace gl gls nth skipn app seq map firstn
@@ -98,8 +95,6 @@ Theorem assert_eq_ok : instr_spec (ops_of "assert_eq") 2
 Proof. solve_instr ltac:(try lia; try congruence). Qed.
 
 (* ---- conditional stack manipulation ---------------------------------------------------------- *)
-Definition cond_pre (c : Z) : option perr :=
-  if c =? 0 then None else if c =? 1 then None else Some (PNotBinary c).
 Theorem cswap_ok : instr_spec (ops_of "cswap") 3 (fun xs => cond_pre (nz xs 0))
     (fun xs => if nz xs 0 =? 0 then [nz xs 1; nz xs 2] else [nz xs 2; nz xs 1]).
 Proof. unfold cond_pre. solve_instr idtac. Qed.
